@@ -338,7 +338,8 @@ B("C11", "find_library label swapped back", FN, "return regex_hits(LIBRARY_TYPE,
 B("C11", "version filter loses its guard", NET, "        if offset >= 0 and re.match(rb'[\\x00=\\s\"]+$', data[offset + 6 : start]):", "        if re.match(rb'[\\x00=\\s\"]+$', data[offset + 6 : start]):", "R5-filters")
 B("C11", "broadcast filter widened", NET, 'if ip.endswith((b".0", b".255")):', 'if ip.endswith((b".0", b".255", b".1")):', "R5-filters")
 B("C11", "domain hit from group 1 span", NET, "        out.append(match_to_hit(DOMAIN_TYPE, match))\n", "        out.append(Node(DOMAIN_TYPE, match.group(), \"\", match.start(), match.end() - 1))\n", "R4-exact-span")
-B("C11", "URL tail class admits trailing dot", NET, "[\\w!#-&(*+\\-/:=@?~])?)?", "[\\w!#-&(*+\\-/:=@?~])?)?+", "R1-containment")
+N("C11", "possessive on the outermost trailing optional group (nothing follows it)", NET, "[\\w!#-&(*+\\-/:=@?~])?)?", "[\\w!#-&(*+\\-/:=@?~])?)?+")
+B("C11", "possessive star before a class it overlaps", NET, "(?:[\\w!#-/:;=@?~]*[\\w!#-&(*+\\-/:=@?~])?)?", "(?:[\\w!#-/:;=@?~]*+[\\w!#-&(*+\\-/:=@?~])?)?", "R1-containment")
 B("C11", "EXECUTABLE_RE requires a lower-case extension", FN, 'EXECUTABLE_RE = rb"(?i)\\b\\w+[.]exe\\b"', 'EXECUTABLE_RE = rb"\\b\\w+[.]exe\\b"', "R1-containment")
 B("C11", "email local part needs 5 chars", NET, 'EMAIL_RE = rb"(?i)\\b[a-z0-9._%+-]{3,}@("', 'EMAIL_RE = rb"(?i)\\b[a-z0-9._%+-]{5,}@("', "R1-containment")
 B("C11", "closing-brace scan starts at balance 0", D + "vba.py", "    balance = 1\n", "    balance = 0\n", "R7-createobject")
@@ -552,3 +553,29 @@ for _p, _f, _old in PURE:
     N(_p, "pure bytes helper memoised", _f, _old, "@functools.lru_cache(maxsize=4096)\n" + _old, also=[dict(file=_f, old=FUT, new=FUT_FT)])
 B("C01", "memoised function takes a Node", "src/multidecoder/xor_helper.py", "def apply_xor_key(", "@functools.lru_cache(maxsize=16)\ndef apply_xor_key(", "R1-exception-escape",
   also=[dict(file="src/multidecoder/xor_helper.py", old="import regex as re\n", new="import functools\n\nimport regex as re\n")])
+
+# ------------------------------------------------------------------ rules added after round 8 (seeds s77-s96)
+SC_INIT = "    in_string = False\n    out = []\n    i = 0\n"
+N("C16", "early return when the text holds no caret", SH, SC_INIT, "    if b\"^\" not in cmd:\n        return cmd\n" + SC_INIT)
+N("C16", "early return through a find() temporary", SH, SC_INIT, "    first = cmd.find(b\"^\")\n    if first < 0:\n        return cmd\n" + SC_INIT)
+B("C16", "early return when the text holds no quote", SH, SC_INIT, "    if b'\"' not in cmd:\n        return cmd\n" + SC_INIT, "R6-caret-machine")
+B("C16", "scan resumes at the first caret with a guessed quote state (seed s92)", SH, SC_INIT,
+  "    first = cmd.find(b\"^\")\n    if first < 0:\n        return cmd\n    line_start = cmd.rfind(b\"\\n\", 0, first) + 1\n    in_string = cmd.count(b'\"', line_start, first) % 2 == 1\n    out = list(cmd[:first])\n    i = first\n", "R6-caret-machine")
+PEF3 = D + "pe_file.py"
+B("C11", "MZ scan with a look-ahead that stops at a newline byte (seed s87)", PEF3, 're.finditer(b"MZ", data)', 're.finditer(rb"MZ(?=.{62})", data)', "R7-pe-extent")
+N("C11", "MZ scan with a DOTALL look-ahead for the DOS header", PEF3, 're.finditer(b"MZ", data)', 're.finditer(rb"(?s)MZ(?=.{62})", data)')
+B("C11", "MZ scan case-insensitive", PEF3, 're.finditer(b"MZ", data)', 're.finditer(rb"(?i)MZ", data)', "R7-pe-extent")
+XML_OLD = 'XML_ESCAPE_RE = rb"(?i)(?:&#(x[a-f0-9]{2}|(?:25[0-5]|2[0-4][0-9]|[0-1]?[0-9]{1,2}));){5,}"'
+B("C14", "possessive digit prefix (seed s90)", XMLF, XML_OLD, 'XML_ESCAPE_RE = rb"(?i)(?:&#(x[a-f0-9]{2}|(?:25[0-5]|2[0-4][0-9]|[0-1]?+[0-9]{1,2}+));){5,}+"', "R0-no-cut")
+N("C14", "possessive run quantifier at the end of the pattern", XMLF, XML_OLD, 'XML_ESCAPE_RE = rb"(?i)(?:&#(x[a-f0-9]{2}|(?:25[0-5]|2[0-4][0-9]|[0-1]?[0-9]{1,2}));){5,}+"')
+B("C02", "possessive digit prefix in the XML pattern", XMLF, XML_OLD, 'XML_ESCAPE_RE = rb"(?i)(?:&#(x[a-f0-9]{2}|(?:25[0-5]|2[0-4][0-9]|[0-1]?+[0-9]{1,2}+));){5,}+"', "R5-via-C14.R0-no-cut")
+B("C12", "empty segment pushed after the loop for a trailing dot segment (seed s88)", NET, '    if dotless == [b""]:\n        # Maintain starting / if the entire path is dot segments\n        return b"/", "url.dotpath"\n',
+  '    if dotless == [b""]:\n        # Maintain starting / if the entire path is dot segments\n        return b"/", "url.dotpath"\n    if segments[-1] in (b".", b".."):\n        dotless.append(b"")\n', "R4-labels")
+B("C10", "closing delimiter trims the span but not the text that is normalised", NET, "                end = start + close\n                group = group[:close]\n", "                end = start + close\n", "R4-percent")
+B("C10", "text normalised before it is trimmed (seed s86)", NET, "        url, obfuscation = normalize_percent_encoding(group)\n", "        url, obfuscation = normalize_percent_encoding(match.group())\n", "R4-percent")
+N("C10", "trimmed text through a differently named temporary", NET, "        url, obfuscation = normalize_percent_encoding(group)\n", "        covered = group\n        url, obfuscation = normalize_percent_encoding(covered)\n")
+SORT_OLD2 = "        results = sorted(\n            (hit for search in self.decoders for hit in search(node.value) if hit.value),\n            key=lambda t: (t.start, -t.end),\n        )\n"
+for _p, _e in (("C03", "R6-rebase-in-bounds"), ("C05", "V2")):
+    B(_p, "per-decoder lists merged instead of sorted (seeds s79 / s81)", MD, SORT_OLD2,
+      "        results = heapq.merge(\n            *([hit for hit in search(node.value) if hit.value] for search in self.decoders),\n            key=lambda t: (t.start, -t.end),\n        )\n", _e,
+      also=[dict(file=MD, old="from __future__ import annotations\n", new="from __future__ import annotations\n\nimport heapq\n")])
